@@ -21,6 +21,7 @@ var (
 	errDigestCharset         = errors.New("digest: unsupported charset")
 	errDigestAlgNotSupported = errors.New("digest: algorithm is not supported")
 	errDigestQopNotSupported = errors.New("digest: no supported qop in list")
+	errDigestUnreplayable    = errors.New("digest: request body (io.Reader) can not be sent again")
 )
 
 var hashFuncs = map[string]func() hash.Hash{
@@ -46,6 +47,9 @@ func handleDigestAuthFunc(username, password string) ResponseMiddleware {
 		r := resp.Request
 		req := *r.RawRequest
 		if req.Body != nil {
+			if r.unReplayableBody != nil { // already drained by the first attempt
+				return errDigestUnreplayable
+			}
 			err = parseRequestBody(client, r) // re-setup body
 			if err != nil {
 				return err
